@@ -1,12 +1,13 @@
 (* BrokerGenRun.v — the broker's event loop with the methods TRANSLATED from the Python source plugged in
    (BrokerGen.v), and the theorem that it is the model the property theorems are about: run_src = run.
-   Hand-written here (as in Broker.v): the frame loop of process_pending, BaseProtocol's dispatch and on_auth
-   (BrokerGenEq.base_dispatch), connection_made, the transport callbacks and the deadline timer.
+   Hand-written here (as in Broker.v): the frame loop of process_pending (on fuel; a bad header closes), the object before
+   connection_made (PyBroker.p_new_conn), which queued completion a LookupDone event runs, what asyncio does with an
+   exception that escapes a callback, EOF, the write-side callbacks and the deadline timer.
    Uses functional extensionality through BrokerGenEq.v. *)
 From Coq Require Import ZArith List Bool Arith Lia.
 From Coq Require Import Strings.Byte.
 From Coq Require Import FunctionalExtensionality.
-From HP Require Import Bytes Utf8 Sha1 Wire Params ParamsOK Broker PyBroker BrokerGen BrokerGenEq.
+From HP Require Import Bytes Utf8 Sha1 Wire WireFacts Params ParamsOK Broker PyBroker BrokerGen BrokerGenEq.
 Import ListNotations.
 Open Scope Z_scope.
 
@@ -24,7 +25,7 @@ Fixpoint pp_src (fuel : nat) (q : nat) (s : state) : res :=
       | Bad _ => Ok (cl q s)
       | Ready op body rest =>
           let s1 := modc q (set_buf rest) s in
-          match to_resb (Connection_message_received (base_dispatch store async_store (pp_src f)) q op body s1) with
+          match to_resb (Connection_message_received store async_store (pp_src f) q op body s1) with
           | (Ok s2, true) => Ok s2
           | (Ok s2, false) => pp_src f q s2
           | (r, _) => r
@@ -55,21 +56,18 @@ Definition do_lookup_done_src (q : nat) (r : lres) (s : state) : state :=
   if negb (async_store && made (conns s q)) then s else
   match pending (conns s q) with
   | [] => s
-  | (i, dg) :: rest =>
-      let s1 := modc q (set_pending rest) s in
-      match r with
-      | RRaise => bad q s1
-      | RLook l =>
-          match Connection_authenticate ppq_src q i dg l s1 with
-          | BRaise s2 => cl q s2
-          | BOk _ s2 | BFuel s2 => s2
-          end
-      end
+  | (i, dg) :: _ =>
+      match Connection_on_auth_result ppq_src q r i dg s with BOk _ s' | BRaise s' | BFuel s' => s' end
   end.
+
+(* Connection(server) + connection_made *)
+Definition do_connect_src (q : nat) (n : bytes) (s : state) : state :=
+  if made (conns s q) then s else
+  match Connection_connection_made bname q (p_new_conn q n s) with BOk _ s' | BRaise s' | BFuel s' => s' end.
 
 Definition step_src (s : state) (e : event) : state :=
   match e with
-  | Connect q n => do_connect bname q n s
+  | Connect q n => do_connect_src q n s
   | Data q ch => do_data_src q ch s
   | PeerClosed q => do_peer_closed q s
   | Lost q => do_lost_src q s
@@ -83,8 +81,10 @@ Definition run_src (h : list event) : state := fold_left step_src h state0.
 Lemma pp_src_eq : forall f, pp_src f = pp store async_store f.
 Proof.
   induction f as [|f IH]; apply functional_extensionality; intro q; apply functional_extensionality; intro s; [reflexivity|].
-  cbn [pp_src pp]. destruct (next limitP (buf (conns s q))) as [| |op body rest]; try reflexivity.
-  cbv zeta. rewrite (handle_src_eq store async_store (pp_src f)). rewrite IH. reflexivity.
+  cbn [pp_src pp]. destruct (next limitP (buf (conns s q))) as [| |op body rest] eqn:N; try reflexivity.
+  cbv zeta. rewrite (handle_src_eq store async_store (pp_src f)).
+  - rewrite IH. reflexivity.
+  - apply (WireFacts.next_ready_inv limitP) in N. tauto.
 Qed.
 
 Lemma ppq_src_eq : ppq_src = ppq store async_store.
@@ -96,14 +96,16 @@ Qed.
 Lemma step_src_eq : forall s e, step_src s e = step bname store async_store s e.
 Proof.
   intros s [q n|q ch|q|q|q r|q|q|]; cbn [step_src step]; try reflexivity.
+  - unfold do_connect_src. destruct (made (conns s q)) eqn:Hm; [unfold do_connect; rewrite Hm; reflexivity|].
+    rewrite Connection_connection_made_eq by exact Hm. reflexivity.
   - unfold do_data_src, do_data. rewrite ppq_src_eq. reflexivity.
   - unfold do_lost_src, do_lost. destruct (made (conns s q) && negb (lost (conns s q))); [|reflexivity].
     cbv zeta. rewrite Connection_connection_lost_eq. destruct (copen (conns (cl q s) q)); reflexivity.
   - unfold do_lookup_done_src, do_lookup_done.
     destruct (negb (async_store && made (conns s q))); [reflexivity|].
-    destruct (pending (conns s q)) as [|[i dg] rest]; [reflexivity|].
-    cbv zeta. destruct r as [l|]; [|reflexivity].
-    rewrite Connection_authenticate_eq, ppq_src_eq.
+    destruct (pending (conns s q)) as [|[i dg] rest] eqn:P; [reflexivity|].
+    rewrite (Connection_on_auth_result_eq ppq_src q r i dg rest s P). cbv zeta. rewrite ppq_src_eq.
+    destruct r as [l|]; [|reflexivity].
     destruct (authenticate (ppq store async_store q) q i dg l (modc q (set_pending rest) s)); reflexivity.
 Qed.
 
